@@ -277,7 +277,8 @@ def handleRun (kv : List (String × String)) (impl : String) : String × String 
     -- what the peer negotiates: `tls1` answers the ALPN offer `h2` with the alert "no application protocol";
     -- `tls2` negotiates h2 mutually; a plain-TCP target (`live`) breaks the TLS handshake (an ordinary error)
     let facts : H2Facts := { alpnAlert := tgt == "tls1", tls := if tgt == "tls2" then some ("h2", true) else none }
-    let noConn := tgt == "dead" || (h2 && tgt != "tls2")
+    -- `c403` … : the connect gun's CONNECT request is refused / answered with garbage / stray bytes / dropped: no tunnel
+    let noConn := tgt == "dead" || (h2 && tgt != "tls2") || ["c403", "cgarbage", "cextra", "cclose"].contains tgt
     let reqs := splitList (getS kv "reqs") ","
     let truths := reqs.map fun r => match r.splitOn ":" with | [_, t] => t | _ => "f"
     let cycle : List GunShot := (List.range reqs.length).map fun i =>
@@ -290,35 +291,43 @@ def handleRun (kv : List (String × String)) (impl : String) : String × String 
     let shots := replicate m cycle
     let run := instanceRun (shots.map GunShot.run)
     let fatal := shots.any GunShot.documentedFatal
-    let v := Spec.C19.judgeRun fatal shots.length shots.length shots.length res n
+    let v0 := Spec.C19.judgeRun fatal shots.length shots.length shots.length res n
+    -- the samples must carry what the target really did (ground truth of the scripts, independent of the model)
+    let truthTab := (List.range reqs.length).map fun i => (hexOfStr s!"r{i}", if noConn then "f" else truths[i]!)
+    let v := if v0 != "ok" || fatal then v0 else Spec.C19.judgeCarry truthTab (getS (parseKV impl) "s")
     -- not predicted: a script whose fate the library decides; how many instances get a shot in before a failing pool stops
     if (!noConn && truths.any truthUnknown) || (fatal && (getN? kv "inst").getD 1 > 1) then ("-", v)
     else (fmtRun run "panic:not-http2", v)
-  | "http/scenario" =>
+  | "http/scenario" | "http2/scenario" =>
+    let h2 := getS kv "gun" == "http2/scenario"
+    let tgt := getS kv "tgt"
+    let facts : H2Facts := { alpnAlert := tgt == "tls1", tls := if tgt == "tls2" then some ("h2", true) else none }
+    let noConn := tgt == "dead" || (h2 && tgt != "tls2")
     let parsed := (splitList (getS kv "steps") ";").mapM fun st =>
       match st.splitOn "," with
       | [name, script, truth, pps] => do
         let toks := splitList pps "+"
         let ps ← toks.mapM parsePP
         let cfg : StepCfg := { name := name, prepFails := toks.contains "tpl", pps := ps.filterMap id }
-        let reply := if getS kv "tgt" == "dead" then Reply.noResponse .other else replyOf truth script
+        let reply := if noConn then Reply.noResponse .other else replyOf truth script
         pure (cfg, reply)
       | _ => none
     match parsed with
     | none => ("-", "fail:driver:unparsable steps")
     | some steps =>
       let shotsN := (getN? kv "n").getD 1
-      let shots := List.replicate shotsN (GunShot.scenario "scn" steps)
+      let shots := List.replicate shotsN (GunShot.scenario h2 facts "scn" steps)
       let run := instanceRun (shots.map GunShot.run)
-      let v := Spec.C19.judgeRun false shotsN shotsN (shotsN * steps.length) res n
+      let fatal := shots.any GunShot.documentedFatal
+      let v := Spec.C19.judgeRun fatal shotsN shotsN (shotsN * steps.length) res n
       -- not predicted: a step whose request is built from a variable of an earlier RESPONSE (the rendered request may
       -- or may not be sendable), a script whose fate the library decides
       let stepToks := (splitList (getS kv "steps") ";").map fun st => st.splitOn ","
-      let unknown := getS kv "tgt" != "dead" && stepToks.any fun f =>
+      let unknown := !noConn && stepToks.any fun f =>
         match f with
         | [_, _, truth, pps] => truthUnknown truth || (splitList pps "+").contains "U"
         | _ => false
-      if unknown then ("-", v) else (fmtRun run "panic:unexpected", v)
+      if unknown || (fatal && (getN? kv "inst").getD 1 > 1) then ("-", v) else (fmtRun run "panic:not-http2", v)
   | "grpc" =>
     let parsed := (splitList (getS kv "reqs") ",").mapM fun r =>
       match r.splitOn ":" with
@@ -369,7 +378,9 @@ def handleRun (kv : List (String × String)) (impl : String) : String × String 
 
 def handle : Handler := fun input impl =>
   let kv := parseKV input
-  if impl == "HANG" then ("-", "fail:hang:driver case timed out")
+  -- the machine ran out of local ports while the case ran (many checks share it): nothing was observed about the guns
+  if impl.startsWith "INCONCLUSIVE" || impl.startsWith "PANIC listen tcp" then ("-", "skip:inconclusive")
+  else if impl == "HANG" then ("-", "fail:hang:driver case timed out")
   else match getS kv "k" with
   | "mod" => handleMod kv impl
   | "assert" => handleAssert kv impl
